@@ -54,6 +54,15 @@ func genSchedSpec(p *schedParams, c *Corpus, run int, cold bool) *RunSpec {
 	spec := &RunSpec{Property: p.prop, Engine: "sched", VerifSeed: p.verifSeed, Run: run, RunSeed: fmt.Sprintf("%#x", seed), Cfg: cfg,
 		Fresh: cold || ro.Chance(7, 10), Cold: cold, Deep: deepBuild, GoMaxProcs: runtime.GOMAXPROCS(0)}
 	spec.RefAfter = !cold && root.Split("ref-after").Chance(1, 2)
+	if rg := root.Split("gc"); rg.Chance(1, 25) {
+		span := 200
+		if deepBuild {
+			span = 3000
+		}
+		for i := rg.Range(1, 2); i > 0; i-- {
+			spec.GCAt = append(spec.GCAt, rg.Intn(span))
+		}
+	}
 	// documents
 	var docs [][]byte
 	herd := rd.Chance(1, 2)
